@@ -7,7 +7,7 @@ import cyc
 from core import enc_list, enc_cycs, enc_table
 
 PID = 'C06'
-MODULES = ['FFVerif.Proofs.C06']
+MODULES = ['FFVerif.Proofs.C06', 'FFVerif.Proofs.C06Rainflow', 'FFVerif.Lemmas.RyBottom']
 
 
 def corpus():
